@@ -8,6 +8,8 @@
 //!   RUN                the flush worker runs until no job is left
 //!   R                  read: selection keys (dedup by id), COUNT, per-context REPLAY order
 //!   X                  kill -9, restart on the same directories
+//!   XM                 kill -9 INSIDE the segment write of the head job (directory created, files
+//!                      incomplete), restart; nothing happens unless a job is parked at its start
 //!   D                  clean shutdown (flush all, stop), restart
 //!   C                  one compaction round (unparked)
 //!   LS                 durable listing: WAL files with line counts, segment directories
@@ -24,6 +26,7 @@ pub enum Op {
     Run,
     R,
     X,
+    Xm,
     D,
     C,
     Ls,
@@ -38,6 +41,7 @@ impl Op {
             Op::Run => "RUN".into(),
             Op::R => "R".into(),
             Op::X => "X".into(),
+            Op::Xm => "XM".into(),
             Op::D => "D".into(),
             Op::C => "C".into(),
             Op::Ls => "LS".into(),
@@ -72,6 +76,11 @@ pub struct Exec {
     /// keys whose WAL entry was written to an unlinked log file, or whose log file was deleted by
     /// a cleanup (observed on the real engine)
     pub orphaned: Vec<u64>,
+    /// a kill inside a segment write happened while no `segments.idx` existed: the incomplete
+    /// directory gets registered by the next index rebuild (finding C01-kill-in-first-segment-write);
+    /// reads are not compared from then on
+    pub poisoned: bool,
+    xm_count: u64,
 }
 
 fn arm_all(s: &mut Session) {
@@ -88,7 +97,7 @@ impl Exec {
             assert!(r.map(|r| r.ok()).unwrap_or(false), "DEFINE failed");
         }
         arm_all(&mut s);
-        Exec { s, ntypes, stores_this_life: 0, log: vec![], last_real_read: String::new(), last_read_racy: false, seen_labels: Default::default(), cur_labels: Default::default(), tainted: false, orphaned: vec![] }
+        Exec { s, ntypes, stores_this_life: 0, log: vec![], last_real_read: String::new(), last_read_racy: false, seen_labels: Default::default(), cur_labels: Default::default(), tainted: false, orphaned: vec![], poisoned: false, xm_count: 0 }
     }
 
     fn hits(&mut self, p: &str) -> u64 {
@@ -162,6 +171,25 @@ impl Exec {
             guard += 1;
             assert!(guard < 10_000);
         }
+    }
+    /// Kill the process INSIDE the segment write of the head job. The flush worker must be parked
+    /// at the start of a job (`flush.registered`); it is let go and the process aborts when it
+    /// reaches `point` (`zonewriter.meta_written` / `zonewriter.cols_written`: the directory
+    /// exists, its files are incomplete). Then the engine is restarted on the same directories.
+    /// Returns false, without doing anything, when no job is parked at its start.
+    pub fn crash_in_write(&mut self, point: &str) -> bool {
+        self.wait_wal_drained();
+        if self.where_parked() != Some(0) {
+            return false;
+        }
+        let n = self.hits(point);
+        self.s.arm_crash(point, n + 1);
+        self.s.ctl(json!({"ctl": "pass_one", "point": POINTS[0]}));
+        if !self.s.wait_dead(5000) {
+            self.s.kill();
+        }
+        self.restart();
+        true
     }
     fn wait_wal_drained(&mut self) {
         let t0 = std::time::Instant::now();
@@ -291,7 +319,17 @@ impl Exec {
                 let line = self.read();
                 self.last_read_racy = racy;
                 self.last_real_read = line.clone();
-                Some(if racy { "racy".to_string() } else if self.tainted { "stale".to_string() } else { line })
+                Some(if self.poisoned { "poisoned".to_string() } else if racy { "racy".to_string() } else if self.tainted { "stale".to_string() } else { line })
+            }
+            Op::Xm => {
+                const MID: [&str; 2] = ["zonewriter.meta_written", "zonewriter.cols_written"];
+                let no_index = !self.s.shard_data_dir(0).join("segments.idx").exists();
+                let point = MID[(self.xm_count % 2) as usize];
+                self.xm_count += 1;
+                if self.crash_in_write(point) && no_index {
+                    self.poisoned = true;
+                }
+                None
             }
             Op::X => {
                 self.sync_worker();
